@@ -19,6 +19,7 @@ from harness.core import coqQ, coq_list, coq_string
 THEOREMS = ['C08_substitution', 'C08_accepts', 'C08_names_counts', 'C08_names_order', 'C08_state_is_net',
             'C08_history_independent', 'C08_fix_then_release', 'C08_nothing_fixed_is_identity',
             'C08_rename_free_only', 'C08_rename_keeps_fixed_names', 'C08_rename_old_code_refuted',
+            'C08_sensitivities_follow_free', 'C08_refresh_on_count_refuted', 'C08_early_return_refuted',
             'C08_buffers_refine_spec', 'C08_buffers_observe']
 HEADER = '''From Coq Require Import ZArith QArith List Bool String.
 From Chi Require Import Model.Fixing Tie.C08Tie.
@@ -272,10 +273,20 @@ def gen_history(rng, subj):
     """ops use the names the object reports at that moment"""
     ops = []
     n_steps = rng.choice([1, 2, 2, 3, 4])
+    planned = []
+    if subj.kind == 'mech' and rng.random() < 0.3:
+        # sensitivities switched on between a fix and (a) its release, (b) a swap in one call
+        n0, n1 = rng.sample(subj.full_names(), 2)
+        last = [(n1, None)] if rng.random() < 0.5 else [(n1, None), (n0, core.dyadic(rng, 2, 24, 8))]
+        rng.shuffle(last)
+        planned = [('fix', [(n1, core.dyadic(rng, 2, 24, 8))]), ('sens', True), ('fix', last)]
+        n_steps = len(planned)
     for _ in range(n_steps):
         names = subj.full_names()
         r = rng.random()
-        if subj.kind == 'mech' and r < 0.3:
+        if planned:
+            op = planned.pop(0)
+        elif subj.kind == 'mech' and r < 0.3:
             op = ('sens', rng.random() < 0.75)
         elif subj.kind == 'pop' and r < 0.2 and 'hetero' not in subj.sub:
             nd = subj.inner.n_dim()
@@ -322,6 +333,9 @@ def gen_history(rng, subj):
         if op[0] == 'fix':
             pos = {n: i for i, n in enumerate(names)}
             subj.trans.append([(subj.orig_names[pos[n]] if n in pos else n, v) for n, v in op[1]])
+            subj.rops = getattr(subj, 'rops', []) + [('fix', subj.trans[-1])]
+        elif op[0] == 'sens':
+            subj.rops = getattr(subj, 'rops', []) + [('sens', op[1])]
     return ops
 
 
@@ -354,6 +368,11 @@ def run_case(seed):
     ops = gen_history(rng, subj)
     out['ops'] = ops
     out['renames'] = getattr(subj, 'renames', [])
+    if kind == 'mech':
+        # what the wrapped model was last asked for: sensitivities w.r.t. which parameters (None = switched off)
+        inner = subj.inner
+        out['rops'] = getattr(subj, 'rops', [])
+        out['sens_observed'] = [inner._names[i] for i in inner._sens_idx] if inner.has_sensitivities() else None
     if getattr(subj, 'name_problem', None):
         out['violation'] = subj.name_problem
         return out
@@ -428,13 +447,20 @@ def key_of(case, what):
     return 'C08|%s' % case.get('kind')
 
 
-HEADER_RENAME = '''From Coq Require Import List Bool String.
+HEADER_RENAME = '''From Coq Require Import QArith List Bool String.
 From Chi Require Import Model.Fixing.
 Import ListNotations.
 Open Scope string_scope.
 Fixpoint lstr_eqb (a b : list string) : bool :=
   match a, b with [], [] => true | x :: a', y :: b' => String.eqb x y && lstr_eqb a' b' | _, _ => false end.
 (* observed on chi: the published names of the wrapped model after ReducedPopulationModel.set_parameter_names(new) *)
+(* observed on the wrapped model after a history: the parameters it was last asked to differentiate by *)
+Definition c08_sens (names : list string) (ops : list (rop Q)) (observed : option (list string)) : bool :=
+  match rsens (rrun rstep names ops), observed with
+  | None, None => true
+  | Some a, Some b => lstr_eqb a b
+  | _, _ => false
+  end.
 Definition c08_rename (mask : list bool) (ps : list (string * string)) (new observed : list string) : bool :=
   lstr_eqb (map full (rename mask ps new)) observed.
 '''
@@ -464,6 +490,12 @@ def run(ck):
             ck.count('value outside the model domain: reduced and unfixed object raise alike')
             continue
         label = 'h%d' % i
+        if 'rops' in out:
+            rops = coq_list(out['rops'], lambda o: '(RSens %s)' % core.coq_bool(o[1]) if o[0] == 'sens' else
+                            '(RFix %s)' % coq_list(o[1], lambda nv: '(%s, %s)' % (
+                                core.coq_string(nv[0]), 'None' if nv[1] is None else '(Some %s)' % coqQ(nv[1]))))
+            obs = 'None' if out['sens_observed'] is None else '(Some %s)' % coq_list(out['sens_observed'], core.coq_string)
+            rexprs.append(('%s_s' % label, 'c08_sens %s %s %s' % (coq_list(out['orig_names'], core.coq_string), rops, obs)))
         for q, r in enumerate(out.get('renames', [])):
             rexprs.append(('%s_%d' % (label, q), 'c08_rename %s %s %s %s' % (
                 coq_list(r['mask'], core.coq_bool),
@@ -476,7 +508,7 @@ def run(ck):
                       'population models) on ReducedErrorModel (recording and real), ReducedMechanisticModel, '
                       'ReducedPopulationModel (9 kinds), LogLikelihood (recording and real error models) and '
                       'PredictiveModel; every case evaluates the object; distinct = distinct (kind, history)')
-    ck.log('exact route: %d histories, %d renamings' % (len(exprs), len(rexprs)))
+    ck.log('exact route: %d histories, %d renaming and sensitivity-request expressions' % (len(exprs), len(rexprs)))
     rbad = ck.exact('renaming', HEADER_RENAME, rexprs, shard=200)
     if rbad:
         ck.settle('correspondence C08: the renaming model of Model/Fixing.v and chi differ on %s (first: %s)' % (
